@@ -306,7 +306,7 @@ func (c *Conn) NewID() uint32 { id := c.nextID; c.nextID++; return id }
 // Everything else that arrived is appended to the inbox.
 func (c *Conn) Request(typ int, fields ...hlref.Field) *hlref.Tran {
 	id := c.NewID()
-	c.Send(hlref.Tran{Type: typ, ID: id, Fields: fields}.Encode())
+	c.Send(hlref.Tran{Type: typ, ID: id, Fields: c.w.orderFields(fields, id)}.Encode())
 	var reply *hlref.Tran
 	for _, t := range c.pump() {
 		if t.IsReply == 1 && t.ID == id && reply == nil {
